@@ -116,7 +116,10 @@ class PITFrozenTimestepMasker(PITTimestepMasker):
             rf,
             trainable=False,
         )
-        self.beta.requires_grad = False
+        # a frozen mask is a constant: keep it in the state_dict, but not among the parameters
+        frozen_beta = self.beta.detach().clone()
+        del self.beta
+        self.register_buffer('beta', frozen_beta)
 
     @property
     def trainable(self) -> bool:
